@@ -46,7 +46,12 @@ fn console_vxw_c05() {
             for nc in 0usize..4 {
                 for nd in 0usize..3 {
                     for na in 0usize..3 {
-                        for placement in 0..2 {
+                        // placements 2..4 add a client `Connection` header that NOMINATES proxy-owned header names as connection options
+                        // (a hop-by-hop stripper placed after the proxy set its headers would delete the proxy's own)
+                        for placement in 0..5usize {
+                            let layout = placement % 2;
+                            let conn: Option<&str> = [None, None, Some("keep-alive, X-Ms-Azure-Host-Claims , x-ms-azure-host-date"),
+                                Some("X-MS-AZURE-HOST-DATE,x-ms-azure-host-claims,x-ms-azure-host-authorization"), Some("x-ms-azure-host-claims, keep-alive")][placement];
                             n += 1;
                             // the client lies about its elevation in the first copy, further copies alternate
                             let claim_vals: Vec<String> = (0..nc).map(|i| format!("{{ \"isRoot\": \"{}\"}}", if (i % 2 == 0) != elevated { "true" } else { "false" })).collect();
@@ -57,7 +62,8 @@ fn console_vxw_c05() {
                             for (i, v) in date_vals.iter().enumerate() { owned.push((spell(DATE, i + na), v.clone())); }
                             for (i, v) in auth_vals.iter().enumerate() { owned.push((spell(AUTH, i + nc), v.clone())); }
                             let mut headers: Vec<(String, String)> = vec![("Host".to_string(), ip.to_string())];
-                            if placement == 0 {
+                            if let Some(c) = conn { headers.push(("Connection".to_string(), c.to_string())); }
+                            if layout == 0 {
                                 headers.extend(owned.clone());
                                 headers.push(("x-ms-version".to_string(), "2012-11-30".to_string()));
                             } else {
